@@ -579,6 +579,35 @@ func run(c *core.Ctx) {
 			runPattern("mixed", bundleKind(r.Intn(nBundles)), s, patterns[r.Intn(len(patterns))])
 		}
 	}
+	// a configured CA file that cannot be read (missing, a directory) or holds no certificate: the signer is not built -
+	// it never falls back to a smaller bundle or to the host's trust store
+	for i, files := range [][]string{
+		{filepath.Join(dir, "no-such-ca.pem")},
+		{h.bundles[0][0], filepath.Join(dir, "no-such-ca.pem")},
+		{filepath.Join(dir, "no-such-ca.pem"), h.bundles[0][0]},
+		{dir},
+		{h.bundles[0][0], dir},
+	} {
+		conf := crypki.SignerConfig{TLSClientKeyFile: h.keyFile, TLSClientCertFile: h.certFile, TLSCACertFiles: files,
+			CrypkiEndpoints: []string{ips[0]}, CrypkiPort: uint(h.farm.Port), Retries: 1, PerTryTimeout: time.Second}
+		var sg *crypki.Signer
+		var err error
+		p, msg := core.Guard(func() {
+			if i%2 == 0 {
+				sg, err = crypki.NewSigner(conf)
+			} else {
+				sg, err = casim.SignerViaConfig(h.dir, conf)
+			}
+		})
+		switch {
+		case p:
+			c.Native("building a signer over an unreadable CA file panicked: "+msg, files)
+		case err == nil && sg != nil:
+			c.Native("a signer was built although a configured CA file cannot be read", files)
+		default:
+			c.NativeCheck(1)
+		}
+	}
 	// long-running servers and several signers in one process: a signer whose bundle covers a server talks to it
 	// first, then a signer whose bundle does not cover it is pointed at the very same server instance
 	for i, n := 0, c.N(6, 40); i < n; i++ {
